@@ -432,10 +432,10 @@ func (ctrl *DefaultController) createTransaction(ctx context.Context, store Stor
 			if ctrl.schemaEnforcementMode == SchemaEnforcementStrict {
 				return nil, err
 			}
+			// audit mode: the violation is only reported, the request runs as submitted
 			trace.SpanFromContext(ctx).SetAttributes(attribute.String("schema_validation_failed", err.Error()))
 			logging.FromContext(ctx).Errorf("schema validation failed: %s", err)
-		}
-		if template, ok := schema.SchemaData.Transactions[parameters.Input.Template]; ok {
+		} else if template, ok := schema.SchemaData.Transactions[parameters.Input.Template]; ok {
 			parameters.Input.Plain = template.Script
 			if parameters.Input.Runtime == "" {
 				parameters.Input.Runtime = template.Runtime
